@@ -49,9 +49,10 @@ AddRejected(pt) ==
     /\ AddResult(axes, counts, pt).res = "BinNotFound"
     /\ UNCHANGED <<counts, seen>> /\ last' = "BinNotFound"
 
-Next == /\ Len(hist) < Depth
-        /\ \E pt \in Points : (Add(pt) \/ AddRejected(pt)) /\ hist' = Append(hist, pt)
-        /\ UNCHANGED axes
+Step(pt, A(_)) == Len(hist) < Depth /\ A(pt) /\ hist' = Append(hist, pt) /\ UNCHANGED axes
+AcceptedInsert == \E pt \in Points : Step(pt, Add)
+RejectedInsert == \E pt \in Points : Step(pt, AddRejected)
+Next == AcceptedInsert \/ RejectedInsert
 Spec == Init /\ [][Next]_vars
 
 ---------------------------------------------------------------------------
